@@ -1,96 +1,6 @@
-/-
-Tier K: closed checks of the regenerated tables (`Gen/*`, through `T.*`) against the ISO tables of
-the specification side. Each `…Ok : Bool` is evaluated by the kernel (`decide +kernel`).
--/
-import FastQr.Model.Basic
-import FastQr.Spec.IsoTables
-import FastQr.Spec.IsoExtra
-import FastQr.Spec.BCH
-import FastQr.Spec.GF256
-import FastQr.Spec.Capacity
-
-namespace FastQr.Finite
-open FastQr
-
-/-! ### format / version information (C04) -/
-def formatOk : Bool :=
-  ECL.all.all fun l => (List.range 8).all fun m => T.formatInfo l m == Spec.BCH.format15 l m
-theorem formatOk_true : formatOk = true := by decide +kernel
-
-def versionInfoOk : Bool :=
-  (List.range 40).all fun v => T.versionInfo v == (if v < 6 then 0 else Spec.BCH.version18 (v + 1))
-theorem versionInfoOk_true : versionInfoOk = true := by decide +kernel
-
-def sizeOk : Bool := (List.range 40).all fun v => T.size v == 17 + 4 * (v + 1)
-theorem sizeOk_true : sizeOk = true := by decide +kernel
-
-/-- the 32 format words are pairwise distinct (so the format information identifies level and mask) -/
-def formatInjOk : Bool :=
-  let ws := ECL.all.flatMap fun l => (List.range 8).map fun m => Spec.BCH.format15 l m
-  ws.eraseDups.length == 32
-theorem formatInjOk_true : formatInjOk = true := by decide +kernel
-
-/-! ### block layout (C02) -/
-def layoutRowOk (l : ECL) (v : Nat) : Bool :=
-  let g := T.groups l v
-  let iso := (Spec.Iso.dataBlocks.getD v #[]).getD l.ix (0, 0, 0, 0)
-  let ec := (Spec.Iso.ecPerBlock.getD v #[]).getD l.ix 0
-  g.1 == iso.2.1 && g.2.1 == iso.1 && g.2.2.1 == iso.2.2.2 && (g.2.2.1 == 0 || g.2.2.2 == iso.2.2.1)
-    && (g.2.2.1 != 0 || g.2.2.2 == 0)
-    && (T.generator l v).length == ec + 1
-    && T.dataCodewords l v == g.1 * g.2.1 + g.2.2.1 * g.2.2.2
-    && T.maxBytes v == g.1 * g.2.1 + g.2.2.1 * g.2.2.2 + (g.1 + g.2.2.1) * ec
-    && (g.2.2.1 == 0 || g.2.2.2 == g.2.1 + 1)
-    -- bounds used by `structure` / `division`: block + generator fit the 255-byte buffer, and the
-    -- interleaved sequence fits the 5430-byte array
-    && decide (g.2.1 + ec + 1 ≤ 256) && decide (g.2.2.2 + ec + 1 ≤ 256) && decide (T.maxBytes v + 1 ≤ 5430)
-
-def layoutOk : Bool := ECL.all.all fun l => (List.range 40).all fun v => layoutRowOk l v
-theorem layoutOk_true : layoutOk = true := by decide +kernel
-
-/-- `max_bytes`, `missing_bits` against ISO Table 1 remainder bits -/
-def remainderOk : Bool := (List.range 40).all fun v => T.missingBits v == Spec.Iso.remainderBits v
-theorem remainderOk_true : remainderOk = true := by decide +kernel
-
-/-! ### alignment centres (C03) -/
-def alignOk : Bool :=
-  (List.range 40).all fun v => T.alignGrid v == Spec.Iso.alignCentres.getD v []
-theorem alignOk_true : alignOk = true := by decide +kernel
-
-/-! ### GF(256) tables and generator polynomials (C07) -/
-/-- `LOG[i]` (exponent -> element) is the orbit of multiplication by alpha, `LOG[255] = LOG[0]` -/
-def expOrbitOk : Bool :=
-  T.gfLog 0 == 1 && (List.range 255).all fun i => T.gfLog (i + 1) == Spec.GF.xtime (T.gfLog i)
-theorem expOrbitOk_true : expOrbitOk = true := by decide +kernel
-
-/-- `ANTILOG[LOG[i]] = i` for `i < 255`: the tables are mutually inverse on the nonzero elements -/
-def logInvOk : Bool :=
-  (List.range 255).all fun i => T.gfAntilog (T.gfLog i) == i
-theorem logInvOk_true : logInvOk = true := by decide +kernel
-
-/-- every nonzero byte is a power of alpha: `LOG[ANTILOG[x]] = x` for `1 ≤ x < 256` -/
-def expLogOk : Bool :=
-  (List.range 255).all fun x => T.gfLog (T.gfAntilog (x + 1)) == x + 1 && decide (T.gfAntilog (x + 1) < 255)
-theorem expLogOk_true : expLogOk = true := by decide +kernel
-
-/-- each generator literal (alpha exponents) is `∏_{i<ec} (x - alpha^i)` -/
-def generatorsOk : Bool :=
-  Gen.polys.toList.all fun p =>
-    p.all (fun e => decide (e < 255)) && p.map T.gfLog == Spec.GF.genPoly (p.length - 1)
-theorem generatorsOk_true : generatorsOk = true := by decide +kernel
-
-/-! ### misc tables -/
-def keepLastOk : Bool := (List.range 65).all fun i => T.keepLast i == 2 ^ i - 1
-theorem keepLastOk_true : keepLastOk = true := by decide +kernel
-
-def percentOk : Bool :=
-  (List.range 100).all fun p => T.percentScore p == 10 * (if p ≥ 50 then (p - 50) / 5 else (49 - p) / 5)
-theorem percentOk_true : percentOk = true := by decide +kernel
-
-def masksOrderOk : Bool := T.masksOrder == [0, 1, 2, 3, 4, 5, 6, 7]
-theorem masksOrderOk_true : masksOrderOk = true := by decide +kernel
-
-def padOk : Bool := T.padBytes == (0xEC, 0x11)
-theorem padOk_true : padOk = true := by decide +kernel
-
-end FastQr.Finite
+/- all tier-K table checks (kept for convenience; property files import only the module they need) -/
+import FastQr.Finite.TablesFormat
+import FastQr.Finite.TablesLayout
+import FastQr.Finite.TablesAlign
+import FastQr.Finite.TablesGf
+import FastQr.Finite.TablesMisc
